@@ -730,8 +730,64 @@ def step (c : Case5) (kind : String) (toks : List String) : Case5 × String :=
 
 end Q5
 
+/-! ## C04, update stream (`e=c04u`) -/
+structure UCase where
+  tys : List FieldTy
+  nul : List Bool
+  row : Option RowVals := none
+
+def parseTyChar : String → Option FieldTy
+  | "I" => some .integer | "F" => some .float | "B" => some .boolean | "S" => some .string | "X" => some .base64
+  | _ => none
+
+def obsRow (row : RowVals) : String := joinWith ";" ((readRow row).map obsScalar)
+
+def stepU (u : UCase) (kind : String) (toks : List String) : UCase × String :=
+  match kind with
+  | "new" =>
+    if u.row.isSome then (u, "bad-op") else
+    let ts := ((kv? toks "v").getD "").splitOn ";"
+    if ts.length ≠ u.tys.length then (u, "bad-op") else
+    let vals : Option (List (Option Scalar)) := (ts.zip u.tys).mapM fun (t, ty) =>
+      if t = "-" then some none else (parseV t).map fun v => some (toScalar ty v)
+    match vals with
+    | none => (u, "bad-op")
+    | some vs =>
+      -- `validate_params` for each given field; an omitted field must be nullable
+      let errs := ((vs.zip u.tys).zip u.nul).filterMap fun ((v, ty), n) =>
+        match v with
+        | some x => (match admitParam ty n x with | .error e => some e | .ok _ => none)
+        | none => if n then none else some Err.notnull
+      match errs with
+      | e :: _ => (u, s!"st=err:{e.name}")
+      | [] => ({ u with row := some vs }, s!"st=ok row={obsRow vs} oth=same")
+  | "upd" =>
+    match u.row with
+    | none => (u, "bad-op")
+    | some row =>
+      let ts := (((kv? toks "set").getD "").splitOn ";").filter (· ≠ "")
+      let sets : Option (List (Nat × Scalar)) := ts.mapM fun t =>
+        match t.splitOn ":" with
+        | j :: rest =>
+          (match j.toNat?, parseV (joinWith ":" rest) with
+           | some j, some v => (u.tys[j]?).map fun ty => (j, toScalar ty v)
+           | _, _ => none)
+        | _ => none
+      match sets with
+      | none => (u, "bad-op")
+      | some sets =>
+        let errs := sets.filterMap fun (j, v) =>
+          match admitParam (u.tys[j]?.getD .string) (u.nul[j]?.getD false) v with | .error e => some e | .ok _ => none
+        match errs with
+        | e :: _ => (u, s!"st=err:{e.name}")
+        | [] =>
+          let row' := applyUpdate row sets
+          ({ u with row := some row' }, s!"st=ok row={obsRow row'} oth=same")
+  | _ => (u, "bad-op")
+
 structure St where
   c04 : Option Case := none
+  c04u : Option UCase := none
   c05 : Option Q5.Case5 := none
 
 def stepLine (s : St) (line : String) : St × String :=
@@ -741,10 +797,18 @@ def stepLine (s : St) (line : String) : St × String :=
     match nat? rest "id", kv? rest "e" with
     | some i, some "c04" =>
       match parseCase rest with
-      | some c => ({ c04 := some c, c05 := none }, s!"case {i}")
-      | none => ({ c04 := none, c05 := none }, "bad-op")
-    | some i, some "c05" => ({ c04 := none, c05 := some { ns := (kv? rest "ns") = some "1" } }, s!"case {i}")
-    | _, _ => ({ c04 := none, c05 := none }, "bad-op")
+      | some c => ({ c04 := some c }, s!"case {i}")
+      | none => ({}, "bad-op")
+    | some i, some "c04u" =>
+      let tys := (((kv? rest "tys").getD "").splitOn ",").mapM parseTyChar
+      let nul := ((kv? rest "nul").getD "").splitOn ","
+      (match tys with
+       | some tys =>
+         if tys.isEmpty || tys.length ≠ nul.length then ({}, "bad-op")
+         else ({ c04u := some { tys, nul := nul.map (· = "1") } }, s!"case {i}")
+       | none => ({}, "bad-op"))
+    | some i, some "c05" => ({ c05 := some { ns := (kv? rest "ns") = some "1" } }, s!"case {i}")
+    | _, _ => ({}, "bad-op")
   | "val" :: rest =>
     match s.c04, (kv? rest "v").bind parseV with
     | some c, some v =>
@@ -755,6 +819,14 @@ def stepLine (s : St) (line : String) : St × String :=
       | some ds => if bad then (s, "bad-op") else (s, observe c v l fl ds ((kv? rest "free") = some "1"))
       | none => (s, "bad-op")
     | _, _ => (s, "bad-op")
+  | "new" :: rest =>
+    match s.c04u with
+    | some u => let (u', o) := stepU u "new" rest; ({ s with c04u := some u' }, o)
+    | none => (s, "bad-op")
+  | "upd" :: rest =>
+    match s.c04u with
+    | some u => let (u', o) := stepU u "upd" rest; ({ s with c04u := some u' }, o)
+    | none => (s, "bad-op")
   | kind :: rest =>
     if ["ent", "fld", "build", "upgrade", "row", "q", "qs", "qe", "qg", "qj", "qf", "qo", "ql", "qa", "qn", "run", "pages"].contains kind then
       match s.c05 with
